@@ -34,7 +34,7 @@ def case_of(lines, i):
     return lines[s:e]
 
 
-def run_oracle(ctx, stream, ops):
+def run_oracle(ctx, stream, ops, count=False):
     """Returns list of (case_index, verdict_line) that FAIL, and the number of verdicts."""
     out = ops + ".verdict"
     if os.path.exists(out):
@@ -43,6 +43,12 @@ def run_oracle(ctx, stream, ops):
     if rc != 0 or not os.path.exists(out):
         return None, 0
     verdicts = ctx.read_lines(out)
+    if count and os.path.exists(out + ".stats"):
+        # what the oracle judged, per input class (mode x target / non-target port x op, client kinds, known-class hits, ...)
+        for l in ctx.read_lines(out + ".stats"):
+            k, _, n = l.rpartition(" ")
+            if k and n.isdigit():
+                ctx.count("oracle.%s.%s" % (stream, k), int(n))
     return [(i, v) for i, v in enumerate(verdicts) if v.startswith("FAIL")], len(verdicts)
 
 
@@ -129,10 +135,22 @@ def branch_counters(ctx, stream):
         elif op == "ilp":
             for n in f[3].split(":"):
                 ctx.count("%s.ilp.protocol.%s" % (stream, n))
-        if op in ("il", "ils", "ilh", "ilp"):
+        if op == "ilr":
+            ctx.count("%s.ilr.services-on-reserved-target-ports" % stream, len(re.findall(r":(?:15001|15006|15021|15090):", l)))
+        if op == "ils" and len(f) == 7 and f[6] == "1":
+            ctx.count("%s.ils.unprivileged-proxy" % stream)
+        if op in ("il", "ils", "ilh", "ilp", "ilt", "ilr"):
+            ctx.count("%s.listener.chains-for-reserved-ports" % stream, len(re.findall(r"(?:^|,)(?:15001|15006|15008|15021|15090):", o)))
             ctx.count("%s.listener.custom-listeners" % stream, len(set(re.findall(r"L(\d+)/", o))))
             ctx.count("%s.listener.tls-inspector-ports" % stream, len(re.findall(r"ti:", o)))
             ctx.count("%s.listener.user-tls-chains" % stream, len(re.findall(r":1\.0\.[01]\.1(?:,| |$)", o)))
+        elif op == "cv":
+            # convertPeerAuthentication branches: nil (nothing to enforce / all merged into the static policy) or
+            # the shape of the DENY policy (np = principal rule, dp / ndp = port rules)
+            ctx.count("%s.cv.result.%s" % (stream, "nil" if o == "nil" else "+".join(sorted(set(re.findall(r"np|ndp|dp", o)))) or "other"))
+        elif op == "aw":
+            ctx.count("%s.aw.kind.%s" % (stream, f[1]))
+            ctx.count("%s.aw.keys.%s" % (stream, "none" if o == "K=-" else ("static" if "static_strict" in o else "converted")))
         elif op == "aq":
             k = re.search(r"K=(\S+)", o)
             if k:
@@ -149,17 +167,41 @@ def run(ctx):
                 "DISABLE, PERMISSIVE, STRICT and nil; creation times from a 3-value pool, one case in four with a single "
                 "time; names chosen so that the name tie-break differs from input order; root namespace sometimes a "
                 "workload namespace; present-but-empty selectors and port-level on selector-less policies as malformed "
-                "input) followed by 1-3 workload queries (labels aimed at a selector policy two times in three) over ports "
-                "{80, 8080, 9000, 7777} (stream compose: all resolvers + client decision; stream ambient: attached ztunnel policies + "
-                "direct calls of the hooked conversion functions on arbitrary arguments; stream inbound: the real virtualInbound "
-                "listener of a sidecar with services on 80 HTTP / 8080 TCP / 9090 auto / service port 81 -> target port 8081, one case in three "
-                "with a Sidecar whose ingress listeners (some with user TLS) replace the service chains); client decision on the real "
-                "selectAuthnPolicies view for a random client namespace / imported namespaces); plus the 12 (mode, protocol) rows of the "
-                "real filter-chain table; distinct = hash of (ops, implementation outputs); non-trivial = at least one policy")
+                "input; one policy in ten with a port-level entry on 15006 / 15001 / 15008 / 15021 / 15090 / 443) followed by 1-3 "
+                "workload queries (labels aimed at a selector policy two times in three) over the seven ports "
+                "{80, 8080, 9000, 9090, 8081, 81, 7777}. Stream compose: all resolvers, the client decision on the real "
+                "selectAuthnPolicies view for a random client namespace / imported namespaces (with its version and config "
+                "dependencies), spec edits. Stream ambient: attached ztunnel policies, direct calls of the hooked conversion functions "
+                "on arbitrary arguments, and (one case in ~150) a pod / WorkloadEntry / inline ServiceEntry endpoint on the real ambient "
+                "index over a fake kube client. Stream inbound: the real virtualInbound listener of a sidecar with services on 80 HTTP / "
+                "8080 TCP / 9090 auto / service port 81 -> target port 8081 (other protocols, fewer services, services on reserved or "
+                "privileged target ports; REDIRECT / TPROXY / NONE interception, unprivileged proxy; HBONE), one case in three with a "
+                "Sidecar whose ingress listeners (some with user TLS, some bound to their port, with or without listener merge) replace "
+                "the service chains; and the composed client decision end to end on real CDS / EDS / LDS for 16 kinds of service and "
+                "client (ServiceEntry or Kubernetes Service, targetPort differing from port, gateway client, auto-mTLS off, no sidecar, "
+                "mesh-external, passthrough, DestinationRule modes and subsets). Plus the 16 (mode, protocol) rows of the real "
+                "filter-chain table; distinct = hash of (ops, implementation outputs); non-trivial = at least one policy")
     ctx.assumptions = [
-        "(namespace, name) identifies a PeerAuthentication (hypothesis UniqueKeys of the theorems; true for Kubernetes resources)",
-        "Envoy evaluates filter_chain_match.transport_protocol as documented; ztunnel evaluates Authorization policies as "
-        "documented (groups OR, rules AND, matches OR, DENY wins); both are Lean definitions, not observed binaries",
+        "UniqueKeys: (namespace, name) identifies a PeerAuthentication (true for Kubernetes resources)",
+        "AllPortsNodup: the port-level settings of a policy are a map (true for the API type: portLevelMtls is a map)",
+        "NoPortZero: no port-level entry for port 0 (inbound theorems; validation rejects port 0)",
+        "w.svcNs = []: no waypoint service namespaces in the theorems about resolvers (the waypoint lookup is tied by T-diff only)",
+        "client-side theorems: the endpoint's namespace is one the client's sidecar scope keeps (client namespace, root namespace, "
+        "namespaces of imported services) - an endpoint the client can reach is in an imported service's namespace",
+        "version theorems: the 64-bit hash of the version is collision-free (the model keeps the hashed list) and RvDeterminesContent "
+        "(same namespace/name/resourceVersion means same object: Kubernetes bumps the resourceVersion on every write)",
+        "inbound theorems are claims for destination ports d > 0, d != 15006 (virtualInbound's own port: the blackhole chain, which "
+        "the model leaves out) and, for the mode clauses, ports whose chain config has no user TLS (NoUserTLSFor; user TLS is "
+        "covered by inbound_user_tls_only_under_disable); DeclaredHaveConfigs holds for what the code builds (declared_have_configs) "
+        "except for a service on a reserved target port (15001/15006/15021/15090), which CanBindToPort skips",
+        "delivery: a connection to a Sidecar ingress port with captureMode NONE reaches the listener bound to that port, not "
+        "virtualInbound (listenerFor); redirected traffic reaches virtualInbound with its original destination port",
+        "Envoy selects filter chains as documented (destination port, then transport protocol, then application protocols; "
+        "first transport_socket_match wins); the ALPN / TLS behaviour of the ten client kinds is written from documentation; ztunnel "
+        "evaluates Authorization policies as documented (groups OR, rules AND, matches OR, DENY wins): Lean / Go definitions, "
+        "no data-plane binary is run",
+        "tls_inspector_iff is a statement about the specification of the TLS inspector (enabled iff a chain considered for the port "
+        "matches transport protocol tls); buildTLSInspector itself is tied to it by the differential stream only",
     ]
     ctx.trusted.append("pilot/pkg/model/zz_verif_c10.go, pilot/pkg/xds/endpoints/zz_verif_c10.go, pilot/pkg/networking/core/"
                        "zz_verif_c10.go, pilot/pkg/serviceregistry/ambient/zz_verif_c10.go (verif-tagged accessors)")
@@ -212,7 +254,7 @@ def run(ctx):
             tmp = os.path.join(ctx.work, "oracle." + os.path.basename(ops))
             with open(ops) as fi, open(tmp, "w") as fo:
                 fo.write(fi.read())
-            bad, nv = run_oracle(ctx, stream, tmp)
+            bad, nv = run_oracle(ctx, stream, tmp, count=True)
             if bad is None:
                 ctx.tie_broken("oracle-run:%s" % stream, "the oracle sub-command failed on %s" % ops)
                 continue
@@ -257,27 +299,33 @@ MANIFEST = {
                    "Sidecar-ingress chain configs, target ports, passthrough), and the ambient conversion (fetchPeerAuthentications, "
                    "convertedSelectorPeerAuthentications, convertPeerAuthentication, PeerAuthDerivedPolicies) are modelled exactly. "
                    "Proved for all policy lists, workloads and ports: compose_eq_spec (resolver = declarative effectiveMode, ties by the "
-                   "real comparator), namespace_mode_agrees, client_agrees(_scoped: on the per-proxy filtered view), version_tracks_spec, order "
+                   "real comparator), namespace_mode_agrees, client_agrees(_scoped: on the per-proxy filtered view), version_tracks_spec and filtered_version_tracks_spec (the version of the "
+                   "per-proxy view, the one production reads, determines every client-side decision; THAT the EDS / CDS cache keys contain it is "
+                   "property C06's subject, not checked here), dependencies_cover_spec (every policy the decision reads is a config dependency "
+                   "of the client proxy), order "
                    "independence; the COMPOSED client decision (cluster TLS socket and endpoint label) is proved sound and exact unless the "
                    "namespace-level mode is DISABLE - the full clause is false on the code (theorem client_agrees_full_witness, known finding "
                    "F13 reproduced on real CDS/EDS/LDS); "
                    "inbound_enforces / inbound_listener_enforces (the filter chains Envoy selects for any destination port admit plaintext "
                    "iff not STRICT, terminate mutual TLS iff not DISABLE, all terminate mutual TLS under STRICT; one-way TLS only for user "
-                   "TLS on a Sidecar ingress listener under DISABLE; custom bind listeners, listener merge, HBONE terminate listener always mTLS), "
-                   "ambient_strict_exact (ztunnel rejects an unauthenticated peer iff the "
+                   "TLS on a Sidecar ingress listener under DISABLE; custom bind listeners, listener merge, interception NONE (inbound_none_enforces), HBONE terminate listener always mTLS), "
+                   "ambient_strict_exact / ambient_workload_strict_exact (pods, WorkloadEntries, inline ServiceEntry endpoints; ztunnel rejects an unauthenticated peer iff the "
                    "effective mode is STRICT, for every krt enumeration order), no_dangling, ambient_never_rejects_authenticated. The "
                    "enforcement claims are about filter-chain matches, transport sockets and ztunnel policies as modelled from "
-                   "documentation; listener filters (TLS/HTTP inspectors) and TLS context contents are not modelled. Tied to /repo on every "
-                   "run by three line-by-line differentials against the real functions (incl. the real LDS/CDS/EDS generators, selectAuthnPolicies, "
-                   "buildWorkloadPolicies and PolicyCollections) and one regenerated table."),
+                   "documentation; the TLS inspector is specified (enabled iff a chain considered for the port matches tls), buildTLSInspector is tied to "
+                   "that by T-diff only; the HTTP inspector and TLS context contents are not modelled. Tied to /repo on every "
+                   "run by three line-by-line differentials against the real functions (incl. the real LDS/CDS/EDS generators with the transport "
+                   "socket Envoy SELECTS for the endpoint, selectAuthnPolicies, the real ambient index on a fake kube client, buildWorkloadPolicies "
+                   "and PolicyCollections) and one regenerated table."),
     "level_note": ("Trusted: Lean kernel + {propext, Classical.choice, Quot.sound}; the hand-written model (tied by differential testing: "
                    "~24400 cases quick, ~610000 thorough, plus a 16-row generated table proved equal by decide); four verif-tagged "
                    "accessor files zz_verif_c10.go; Envoy filter-chain selection and ztunnel DENY-policy semantics are Lean definitions "
                    "written from documentation (no data-plane binary). Hypotheses: (namespace,name) unique, port-level settings are a map, "
                    "no port-level entry for port 0, endpoint namespace kept by the client's sidecar scope, no waypoint service namespaces "
-                   "in the theorems (T-diff only). Not modelled: listener filters (TLS/HTTP inspector enablement), TLS context contents "
-                   "beyond require_client_certificate + validation context present, HBONE, gateways, MUTUAL user TLS, DestinationRule "
-                   "subsets. Five defects of the pinned tree (F2, F3, F10, F11, F12) were repaired by fix: commits; their witnesses stay in "
+                   "in the theorems (T-diff only), destination port not 15006, RvDeterminesContent and a collision-free hash for the version "
+                   "theorems; full list in the evidence file. Not modelled: buildTLSInspector's predicate construction and the HTTP inspector, TLS "
+                   "context contents beyond require_client_certificate + validation context present, the blackhole chain, dual-stack extra "
+                   "addresses, inbound listeners of gateways and waypoints, MUTUAL user TLS. Seven defects of the pinned tree (F2, F3, F10, F11, F12, F14, F15) were repaired by fix: commits; their witnesses stay in "
                    "the corpus and as ..._witness_unfixed theorems."),
     "technique": ("Lean 4 theorems over an exact model (precedence resolvers, filter-chain table and listener, ambient conversion) + "
                   "differential correspondence with the real Go functions + kernel-checked generated table + independent property oracle"),
